@@ -14,7 +14,7 @@ for dp,_,fns in os.walk('/verif/overlay'):
 import sys
 harness=os.environ.get('DEV_HARNESS','chainsim')
 for i,pt in enumerate(json.load(open('/verif/tools/srcpatch.json')).get(harness,[])):
-    src=os.path.join('/repo',pt['file']); text=open(src).read()
+    src=os.path.join('/repo',pt['file']); text=open(ov['Replace'].get(src,src)).read()
     assert text.count(pt['old'])==1, pt['file']
     os.makedirs('/var/tmp/dev-patched',exist_ok=True)
     dst='/var/tmp/dev-patched/%d_%s'%(i,os.path.basename(pt['file'])); open(dst,'w').write(text.replace(pt['old'],pt['new'])); ov["Replace"][src]=dst
